@@ -147,7 +147,12 @@ func runCrashCheck(t *testing.T, rep *mc.Reporter, check string, oracle func(scn
 		if mach != "" {
 			return mc.Result{Verdict: "machinery", Clause: mach}
 		}
-		return oracle(scn, &rec)
+		r := oracle(scn, &rec)
+		if r.Verdict == "ok" && os.Getenv("VERIF_REPLAY") != "" {
+			r.Detail = rec.describe()
+			r.Nontrivial = true
+		}
+		return r
 	}
 	if rp, err := mc.LoadReplay(); err != nil {
 		rep.Machinery("cannot load replay: "+err.Error(), nil)
@@ -165,6 +170,9 @@ func runCrashCheck(t *testing.T, rep *mc.Reporter, check string, oracle func(scn
 	fam := os.Getenv("VERIF_FAMILY") // "db": only the database-switch plans (C01 includes them as a part)
 	for _, pl := range crashPlans(check, tier) {
 		pl := pl
+		if fam != "" && fam != "db" {
+			break
+		}
 		if fam == "db" {
 			isDb := false
 			for _, c := range pl.cfgs {
@@ -197,6 +205,89 @@ func runCrashCheck(t *testing.T, rep *mc.Reporter, check string, oracle func(scn
 				}
 			}
 		})
+	}
+	runFam := func(name string, scns []crashScenario, bound int) {
+		if fam != "" && fam != name {
+			return
+		}
+		for _, scn := range scns {
+			scn := scn
+			idx++
+			if idx%nshards != shard || budget.Expired() {
+				continue
+			}
+			mc.RunScenario(rep, scn, bound, budget, func(ch *mc.Chooser) mc.Result { return exec(scn, ch) })
+		}
+	}
+	if fam == "" || fam == "stop" || fam == "kill" || fam == "big" {
+		thorough := tier == "thorough"
+		// ---- family "stop": a fault may also be an orderly stop (context cancelled and source closed between
+		// two stream events: the sender's shutdown path runs against a healthy target), then a restart
+		var stops []crashScenario
+		stopAlpha := map[string][]string{"C02": {"w1", "s1", "t2", "p"}, "C07": {"w1", "s1", "t1", "p"}, "C09": {"t2", "t3", "w1", "s1"}}[check]
+		stopCfgs := crashConfigs("")
+		if check == "C09" {
+			stopCfgs = crashConfigs("txn")
+		}
+		L, mcr := 2, 1
+		if thorough {
+			L, mcr = 3, 2
+		}
+		enumSeqs(stopAlpha, L, func(seq []string) {
+			for _, cfg := range stopCfgs {
+				stops = append(stops, crashScenario{Syms: append([]string{"s0"}, seq...), Cfg: cfg, Max: 1, MaxCrashes: mcr, Stops: true})
+			}
+		})
+		runFam("stop", stops, 0)
+		// ---- family "big": one source transaction with far more commands than any batch size (symbol tL:
+		// 1100 commands, all its items arrive in one read); crash points after every target request that
+		// changes the target's data, orderly stops between the stream events
+		var bigs []crashScenario
+		bigCfgs := []aofCfg{
+			{Txn: true, Resume: true, Pipeline: false, Count: 2, Bytes: 1 << 20, DbMode: "id"},
+			{Txn: true, Resume: true, Pipeline: true, Count: 64, Bytes: 1 << 20, DbMode: "id"},
+		}
+		if check != "C09" {
+			bigCfgs = append(bigCfgs, aofCfg{Txn: false, Resume: true, Pipeline: false, Count: 64, Bytes: 1 << 20, DbMode: "id"},
+				aofCfg{Txn: false, Resume: true, Pipeline: true, Count: 2, Bytes: 1 << 20, DbMode: "id"})
+		}
+		sizes := []int{1100}
+		if thorough {
+			sizes = []int{70, 300, 1100, 4100}
+		}
+		for _, n := range sizes {
+			for _, cfg := range bigCfgs {
+				for _, syms := range [][]string{{"s0", "w1", "tL", "w1"}, {"s0", "tL", "t2"}} {
+					bigs = append(bigs, crashScenario{Syms: syms, Cfg: cfg, Max: 0, MaxCrashes: 1, Bulk: true, BigTxn: n, Stops: true})
+				}
+			}
+		}
+		runFam("big", bigs, 0)
+		// ---- family "kill" (C02): the connections to the target are lost after any request of the replay while
+		// the target stays up: the sender retries inside the run (pipelined sending) or the run ends with an
+		// error and the tool is started again. Ticker-driven checkpointing only (a blind retry may repeat).
+		if check == "C02" {
+			var kills []crashScenario
+			killCfgs := []aofCfg{
+				{Txn: false, Resume: true, Pipeline: true, Count: 2, Bytes: 1 << 20, DbMode: "id"},
+				{Txn: false, Resume: true, Pipeline: true, Count: 64, Bytes: 1 << 20, DbMode: "map12"},
+				{Txn: false, Resume: true, Pipeline: false, Count: 2, Bytes: 1 << 20, DbMode: "id"},
+			}
+			kl := 3
+			if thorough {
+				kl = 4
+			}
+			enumSeqs([]string{"w1", "w2", "s1", "t2"}, kl, func(seq []string) {
+				for _, cfg := range killCfgs {
+					kills = append(kills, crashScenario{Syms: append([]string{"s0"}, seq...), Cfg: cfg, Max: 1, MaxCrashes: 1, Kill: true})
+				}
+			})
+			kb := 1
+			if thorough {
+				kb = 2
+			}
+			runFam("kill", kills, kb)
+		}
 	}
 	if budget.Expired() {
 		rep.Capped("deadline reached before all scenarios were explored")
@@ -493,34 +584,48 @@ func oracleC09(scn crashScenario, rec *crashRec) mc.Result {
 		}
 	}
 	grouped := 0
-	for _, r := range biz {
-		// which group does this request belong to?
-		g := 0
-		var ge expCmd
-		for _, e := range exp {
-			if e.Group != 0 && sameCmd(e, r) {
-				g, ge = e.Group, e
-				break
+	cmdKey := func(name string, args [][]byte) string {
+		var sb strings.Builder
+		sb.WriteString(name)
+		for _, a := range args {
+			fmt.Fprintf(&sb, " %d:", len(a))
+			sb.Write(a)
+		}
+		return sb.String()
+	}
+	firstOf := map[string]expCmd{} // first expected command (of a source transaction) with this text
+	for _, e := range exp {
+		if e.Group != 0 {
+			if _, ok := firstOf[cmdKey(e.Name, e.Args)]; !ok {
+				firstOf[cmdKey(e.Name, e.Args)] = e
 			}
 		}
-		if g == 0 {
+	}
+	judged := map[[2]int]bool{} // (target transaction, source group) pairs already found complete
+	for _, r := range biz {
+		// which group does this request belong to?
+		ge, ok := firstOf[cmdKey(r.Name(), r.Argv[1:])]
+		if !ok {
 			continue
 		}
+		g := ge.Group
 		grouped++
 		shape := scn.Syms[rec.Items[ge.Item].Sym]
 		if r.Txn == 0 {
 			return mc.Violation("a command of a source transaction was executed outside any target transaction", fmt.Sprintf("C09:outside-txn:%s:%s", cls, shape),
 				map[string]interface{}{"command": r.String(), "run": rec.runOf(r.Seq), "history": rec.describe()})
 		}
+		if judged[[2]int{r.Txn, g}] {
+			continue
+		}
+		judged[[2]int{r.Txn, g}] = true
 		b := blocks[r.Txn]
+		inBlock := map[string]bool{}
+		for _, br := range b.reqs {
+			inBlock[cmdKey(br.Name(), br.Argv[1:])] = true
+		}
 		for _, e := range groups[g] {
-			found := false
-			for _, br := range b.reqs {
-				if sameCmd(e, br) {
-					found = true
-				}
-			}
-			if !found {
+			if !inBlock[cmdKey(e.Name, e.Args)] {
 				return mc.Violation("a source transaction was split: the target transaction holds only part of it", fmt.Sprintf("C09:split:%s:%s", cls, shape),
 					map[string]interface{}{"missing": e.String(), "target_txn": reqStrings(b.reqs), "run": rec.runOf(r.Seq), "history": rec.describe()})
 			}
@@ -532,7 +637,7 @@ func oracleC09(scn crashScenario, rec *crashRec) mc.Result {
 				groupEnd = it.End
 			}
 		}
-		ok := false
+		ok = false
 		for _, v := range b.cp {
 			if v >= groupEnd+aofS0 {
 				ok = true
